@@ -47,6 +47,10 @@ class Ctx:
     early = None      # name of the file whose watcher thread finishes at once (startrace)
     firing = None     # (process, file name) of the watcher thread being run by the controller
     joblock = 0       # job locks currently held by that thread
+    world = None      # the FsWorld being driven
+    mid = None        # ops to run while CounterToken.__init__ is between its two _update (startmid)
+    race = None       # ops of the scheduler thread to run while a handler waits for the thread lock
+    in_handler = False
 
 
 class FakeLoop:
@@ -75,6 +79,10 @@ class ParkedThread:
 class IpcShim:
     def fswatch(self, handler, path, recursive=False):
         Ctx.proc.handler = handler
+        if Ctx.mid is not None:
+            # the directory watch of the starting process exists now; other processes go on
+            ops, Ctx.mid = Ctx.mid, None
+            Ctx.world.interleave(ops, skip_first_emit=Ctx.proc)
         return object()
 
     def fsunwatch(self, w):
@@ -88,8 +96,17 @@ class TrackedJobLock:
     def __init__(self, path, *a, **kw):
         self.lock = REAL_FASTENERS.InterProcessLock(path, *a, **kw)
         self.job = str(path).endswith(".lock") and not str(path).endswith("token.lock")
+        self.token = str(path).endswith("token.lock")
+        self.proc = Ctx.proc       # the emulated process this lock object lives in
 
     def __enter__(self):
+        w = Ctx.world
+        if self.token and w is not None and self.proc is not None:
+            # token.lock held by another emulated process that is inside TokenFile.create: the real
+            # call would block until that process has written its file and left the lock
+            holder = w.window_holder()
+            if holder is not None and holder is not self.proc:
+                w.complete_write()
         self.lock.__enter__()
         if self.job and Ctx.firing is not None:
             Ctx.joblock += 1
@@ -98,7 +115,42 @@ class TrackedJobLock:
     def __exit__(self, *a):
         if self.job and Ctx.firing is not None:
             Ctx.joblock -= 1
+        w = Ctx.world
+        if self.token and w is not None and self.proc is not None and self.proc.token is not None \
+                and self is not self.proc.token.ipc_lock and w.window_holder() is self.proc:
+            # POSIX record locks belong to the process: releasing (closing) ANY lock object on token.lock
+            # drops the lock that the scheduler thread of this process holds inside acquire()
+            w.lost_lock.add(id(self.proc))
         return self.lock.__exit__(*a)
+
+    def acquire(self, *a, **kw):
+        return self.lock.acquire(*a, **kw)
+
+    def release(self):
+        return self.lock.release()
+
+
+class HookLock:
+    """threading.Lock as seen by experimaestro.tokens (CounterToken.lock): when a filesystem event handler
+    reaches it, the controller may first let the scheduler thread of the same process run (it held the lock)."""
+
+    def __init__(self):
+        self.lock = threading.Lock()
+
+    def __enter__(self):
+        if Ctx.race is not None and Ctx.in_handler:
+            ops, Ctx.race = Ctx.race, None
+            Ctx.in_handler = False
+            try:
+                Ctx.world.interleave(ops)
+                Ctx.world.complete_write()
+            finally:
+                Ctx.in_handler = True
+        self.lock.acquire()
+        return self
+
+    def __exit__(self, *a):
+        self.lock.release()
 
     def acquire(self, *a, **kw):
         return self.lock.acquire(*a, **kw)
@@ -113,7 +165,7 @@ ORIG_DELETE = T.TokenFile.delete
 
 def install_shims():
     T.ipcom = lambda: IpcShim()
-    T.threading = types.SimpleNamespace(Lock=threading.Lock, Thread=ParkedThread)
+    T.threading = types.SimpleNamespace(Lock=HookLock, Thread=ParkedThread)
     T.fasteners = types.SimpleNamespace(InterProcessLock=TrackedJobLock)
 
     def delete(self):
@@ -186,6 +238,10 @@ class FsWorld:
             fj = FakeJob(i, root)
             self.jobs.append(dict(p=j["p"], c=j["c"], phase=IDLE, orphan=False, job=fj, saved=None, code=None, proc=None))
         self.loop = FakeLoop()
+        self.lost_lock = set()
+        self.inner = []
+        self._before = {}
+        Ctx.world = self
 
     # ---- directory
     def listing(self):
@@ -224,8 +280,34 @@ class FsWorld:
                 if pr.alive and pr.obs and pr is not skip:
                     pr.evq.append(ev)
 
+    def window_holder(self):
+        """the emulated process that is between open() and write() of a token file and still has token.lock"""
+        for j in self.jobs:
+            if j["phase"] == CREATING and not j["orphan"]:
+                pr = self.procs[j["p"]]
+                if id(pr) not in self.lost_lock:
+                    return pr
+        return None
+
+    def complete_write(self):
+        for i, j in enumerate(self.jobs):
+            if j["phase"] == CREATING and not j["orphan"]:
+                self.interleave([["write", i]])
+
+    def interleave(self, ops, skip_first_emit=None):
+        """run other steps in the middle of the step being executed (events of what happened so far first)"""
+        saved = (Ctx.proc, Ctx.tokenfile, Ctx.early)
+        now = self.listing()
+        self.emit(self._before, now, skip_first_emit)
+        for op in ops:
+            if op in self.enabled() or op[0] == "write":
+                res = self.do(op)
+                self.inner.append(dict(op=op, res=res))
+        self._before = self.listing()
+        Ctx.proc, Ctx.tokenfile, Ctx.early = saved
+
     def lock_free(self):
-        return not any(j["phase"] == CREATING for j in self.jobs)
+        return self.window_holder() is None
 
     def creating_in(self, p):
         return any(j["phase"] == CREATING and j["p"] == p and not j["orphan"] for j in self.jobs)
@@ -238,6 +320,11 @@ class FsWorld:
             if not pr.alive:
                 if lf:
                     st.append(["start", p])
+                    for i, j in enumerate(self.jobs):
+                        q = j["p"]
+                        if q != p and self.procs[q].alive and not j["orphan"] and j["phase"] == IDLE and \
+                                i in self.procs[q].deps and self.procs[q].deps[i].currentstatus == DependencyStatus.OK:
+                            st.append(["startmid", p, q, i])
                     for n, size in sorted(self.listing().items()):
                         i = int(n[1:-len(".token")])
                         if size > 0 and self.jobs[i]["phase"] in (IDLE, ENDED, DONE):
@@ -250,6 +337,16 @@ class FsWorld:
                 if pr.obs:
                     for i in range(len(pr.evq)):
                         st.append(["deliver", p, i])
+                    if lf:
+                        for i, (kind, name) in enumerate(pr.evq):
+                            if kind == "deleted" and name in pr.token.cache:
+                                for i2, j in enumerate(self.jobs):
+                                    if j["p"] != p or j["orphan"]:
+                                        continue
+                                    if j["phase"] in (HOLDING, ENDED):
+                                        st.append(["deliverrace", p, i, True, i2])
+                                    if j["phase"] == IDLE and i2 in pr.deps and pr.deps[i2].currentstatus == DependencyStatus.OK:
+                                        st.append(["deliverrace", p, i, False, i2])
             for name in sorted(set(n for n, _ in pr.armed)):
                 st.append(["firedelete", p, int(name[1:-len(".token")])])
             for name in sorted(set(n for n, _ in pr.watchers)):
@@ -280,10 +377,11 @@ class FsWorld:
     # ---- steps
     def do(self, op):
         k = op[0]
-        before = self.listing()
+        outer_before = self._before
+        self._before = self.listing()
         res = "ok"
         skip = None
-        if k in ("start", "startrace"):
+        if k in ("start", "startrace", "startmid"):
             p = op[1]
             pr = self.procs[p]
             Ctx.proc = pr
@@ -293,6 +391,9 @@ class FsWorld:
             skip = pr
             if k == "startrace":
                 Ctx.early = "j%d.token" % op[2]
+            if k == "startmid":
+                # while __init__ is between its two _update, process op[2] acquires for job op[3]
+                Ctx.mid = [["acquire", op[2], op[3]]]
             pr.alive, pr.obs, pr.evq, pr.watchers, pr.deps, pr.locks, pr.armed = True, True, [], [], {}, {}, []
             try:
                 pr.token = T.CounterToken("tok", self.tokdir, self.total)
@@ -301,6 +402,8 @@ class FsWorld:
                 pr.alive, pr.obs, pr.watchers, pr.token, pr.handler = False, False, [], None, None
                 res = "raised:" + type(e).__name__
                 Ctx.early = None
+            Ctx.mid = None
+            Ctx.proc = pr
             # submission of the jobs of this scheduler (Scheduler.aio_submit l.581-588)
             for i, j in enumerate(self.jobs):
                 if not pr.alive:
@@ -359,6 +462,7 @@ class FsWorld:
             # else: the file was unlinked while its creator had it open: the creator's write goes to the
             # unlinked inode, nothing reappears in the directory
             j["phase"] = HOLDING
+            self.lost_lock.discard(id(self.procs[j["p"]]))
         elif k == "launch":
             # Job.aio_run: the process is started and its pid file written (under the job lock)
             j = self.jobs[op[1]]
@@ -407,13 +511,18 @@ class FsWorld:
                 ORIG_DELETE(tf)
             except Exception as e:  # noqa
                 res = "raised:" + type(e).__name__
-        elif k == "deliver":
+        elif k in ("deliver", "deliverrace"):
             p, idx = op[1], op[2]
             pr = self.procs[p]
             Ctx.proc = pr
+            if k == "deliverrace":
+                # the handler's unlocked test has passed; before it gets the thread lock the scheduler
+                # thread of the same process runs a release / an acquire (and writes its file)
+                Ctx.race = [["release", p, op[4]]] if op[3] else [["acquire", p, op[4]]]
             kind, name = pr.evq.pop(idx)
             path = str(self.tokdir / name)
             ev = dict(created=FileCreatedEvent, modified=FileModifiedEvent, deleted=FileDeletedEvent)[kind](path)
+            Ctx.in_handler = True
             try:
                 pr.handler.dispatch(ev)
             except Exception as e:  # noqa
@@ -422,6 +531,9 @@ class FsWorld:
                 res = "raised:" + type(e).__name__
                 pr.obs = False
                 pr.evq = []
+            finally:
+                Ctx.in_handler = False
+                Ctx.race = None
         elif k == "fire":
             p = op[1]
             pr = self.procs[p]
@@ -439,7 +551,8 @@ class FsWorld:
         else:
             raise ValueError(k)
         Ctx.proc = None
-        self.emit(before, self.listing(), skip)
+        self.emit(self._before, self.listing(), skip)
+        self._before = outer_before
         return res
 
     # ---- observables
@@ -470,7 +583,7 @@ class FsWorld:
 
 
 DEFAULT_W = dict(start=6, startrace=3, kill=1, acquire=8, write=10, launch=8, end=6, jobkill=1, release=8, deliver=10, fire=6,
-                 firedelete=3, resubmit=2)
+                 firedelete=3, resubmit=2, startmid=3, deliverrace=4)
 
 
 def run_fs(sc):
@@ -501,7 +614,7 @@ def run_fs(sc):
                     break
                 # late phase: drain (no new acquisitions) so that runs end quiescent
                 if len(out) >= sc.get("nsteps", 40) - sc.get("drain", 0):
-                    en2 = [e for e in en if e[0] not in ("acquire", "kill", "start", "startrace", "resubmit")]
+                    en2 = [e for e in en if e[0] not in ("acquire", "kill", "start", "startrace", "resubmit", "startmid")]
                     en = en2 or en
                 op = rng.choices(en, [weights[e[0]] for e in en])[0]
                 if op[0] == "kill":
@@ -753,6 +866,143 @@ def dep2_target(dep, root):
     return dep
 
 
+# --------------------------------------------------------------------------- directed probes
+def run_probe(sc):
+    """Small directed situations on the real code (side findings of the seeding round)."""
+    root = Path(tempfile.mkdtemp(prefix="xpmverif-tokq-", dir=sc.get("scratch")))
+    out = {}
+    try:
+        install_shims()
+        loop = FakeLoop()
+
+        def token(sub, total, who):
+            Ctx.proc = who
+            who.alive = who.obs = True
+            return T.CounterToken("tok", root / sub, total)
+
+        def files(sub):
+            res = []
+            for f in sorted((root / sub).glob("*.token")):
+                txt = f.read_text().split("\n")[0]
+                res.append([f.name, txt])
+            return res
+
+        def dep(tok, count, job):
+            d = tok.dependency(count)
+            d.target, d.loop = job, loop
+            d.origin.dependents.add(d)
+            d.check()
+            return d
+
+        # E1: one job, two requests on the same token (taken one by one as aio_start does)
+        try:
+            p0 = EProc()
+            tok = token("e1", 4, p0)
+            job = FakeJob(0, root)
+            d1, d2 = dep(tok, 2, job), dep(tok, 1, job)
+            locks = Locks()
+            locks.acquire()
+            locks.append(d1.lock().acquire())
+            locks.append(d2.lock().acquire())
+            with tok.lock, tok.ipc_lock:
+                tok._update()           # what the next acquire / release of anybody does first
+            out["two_requests"] = dict(held=3, total=4, files=files("e1"), available_after_recount=int(tok.available))
+            locks.release()
+        except Exception as e:  # noqa
+            out["two_requests"] = dict(error=type(e).__name__ + ": " + str(e)[:200])
+
+        # E2: the same job identifier in two workspaces (two job directories) sharing the token
+        try:
+            p0 = EProc()
+            tok = token("e2", 2, p0)
+            ja, jb = FakeJob(1, root), FakeJob(1, root)
+            jb.path = root / "other-workspace" / jb.identifier
+            jb.path.mkdir(parents=True)
+            jb.basepath = jb.path / jb.identifier
+            da, db = dep(tok, 1, ja), dep(tok, 1, jb)
+            la, lb = da.lock().acquire(), db.lock().acquire()
+            fs = files("e2")
+            with tok.lock, tok.ipc_lock:
+                tok._update()
+            out["same_identifier"] = dict(held=2, total=2, files=fs, available_after_recount=int(tok.available))
+            la.release()
+            out["same_identifier"]["files_after_first_release"] = files("e2")
+            lb.release()
+        except Exception as e:  # noqa
+            out["same_identifier"] = dict(error=type(e).__name__ + ": " + str(e)[:200])
+
+        # E3 / E4: requests that are not non-negative integers
+        for name, count in (("float_request", 2.0), ("negative_request", -1)):
+            try:
+                p0, p1 = EProc(), EProc()
+                sub = "e-" + name
+                tok = token(sub, 2, p0)
+                job = FakeJob(2, root)
+                try:
+                    d = dep(tok, count, job)
+                except (ValueError, TypeError) as e:
+                    out[name] = dict(rejected=type(e).__name__)
+                    continue
+                lk = d.lock().acquire()
+                before = files(sub)
+                tok1 = token(sub, 2, p1)      # another process looks at the directory
+                out[name] = dict(rejected=None, count=repr(count), files=before, files_after_other_process_recount=files(sub),
+                                 available_in_holder=float(tok.available), available_in_other=float(tok1.available), total=2)
+                lk.release()
+            except Exception as e:  # noqa
+                out[name] = dict(error=type(e).__name__ + ": " + str(e)[:200])
+
+        # E6: token.info is being rewritten (truncated) by the __init__ of another process when the
+        # modified event is handled
+        try:
+            p0 = EProc()
+            tok = token("e6", 2, p0)
+            info = root / "e6" / "token.info"
+            saved = info.read_text()
+            info.write_text("")
+            try:
+                p0.handler.dispatch(FileModifiedEvent(str(info)))
+                out["token_info_truncated"] = dict(handler_raised=None)
+            except Exception as e:  # noqa
+                out["token_info_truncated"] = dict(handler_raised=type(e).__name__)
+            info.write_text(saved)
+            p0.handler.dispatch(FileModifiedEvent(str(info)))
+            out["token_info_truncated"]["available_after_rewrite"] = int(tok.available)
+        except Exception as e:  # noqa
+            out["token_info_truncated"] = dict(error=type(e).__name__ + ": " + str(e)[:200])
+
+        # Process.handler(): a second watcher thread asks for a handler while the first one is loading them
+        try:
+            import experimaestro.connectors as CN
+            import pkg_resources
+            CN.Process.HANDLERS = None
+            seen = {}
+            real_iter = pkg_resources.iter_entry_points
+
+            def iter_hook(*a, **kw):
+                first = True
+                for ep in real_iter(*a, **kw):
+                    if first and "second" not in seen:
+                        first = False
+                        seen["second"] = "pending"
+                        # what another TokenFile.watch thread gets at this very moment
+                        seen["second"] = CN.Process.handler("local") is not None
+                    yield ep
+
+            pkg_resources.iter_entry_points = iter_hook
+            try:
+                first = CN.Process.handler("local") is not None
+            finally:
+                pkg_resources.iter_entry_points = real_iter
+            out["process_handlers"] = dict(first_caller_gets_handler=first, concurrent_caller_gets_handler=seen.get("second"))
+        except Exception as e:  # noqa
+            out["process_handlers"] = dict(error=type(e).__name__ + ": " + str(e)[:200])
+        return out
+    finally:
+        Ctx.proc = None
+        shutil.rmtree(root, ignore_errors=True)
+
+
 def run_one(sc):
     kind = sc.get("kind", "fs")
     if kind == "fs":
@@ -766,6 +1016,8 @@ def run_one(sc):
         return run_stress(sc)
     if kind == "startwin":
         return run_startwin(sc)
+    if kind == "probe":
+        return run_probe(sc)
     raise ValueError(kind)
 
 
